@@ -4,6 +4,8 @@ Exception-freedom obligations on the functions that run in the main process,
 for *all* s-expression shapes (lazy symbolic nodes), plus the exit-status
 contract of main()/bin/ddsmt.
 """
+import os
+
 import z3
 
 from pyvc import mk, sym
@@ -561,6 +563,51 @@ def run_no_recursion(eng, p):
                    'nested deeper than the recursion limit abort ddSMT'})
 
 
+def run_no_swallowed_interrupt(eng, p):
+    """No handler in ddSMT catches KeyboardInterrupt / SystemExit without
+    re-raising, except the documented ones (the mapping to a diagnostic in
+    __main__.main; the profiler wrapper, which re-raises)."""
+    import ast
+    import glob
+    bad = []
+    ok_sites = {('ddsmt/__main__.py', 'main')}
+    files = sorted(glob.glob(os.path.join(eng.repo, 'ddsmt', '*.py'))) + [
+        os.path.join(eng.repo, 'bin', 'ddsmt')]
+    for path in files:
+        rel = os.path.relpath(path, eng.repo)
+        tree = ast.parse(open(path).read())
+        owner = {}
+
+        def mark(node, fname):
+            for ch in ast.iter_child_nodes(node):
+                if isinstance(ch, ast.ExceptHandler):
+                    owner[ch] = fname
+                mark(ch, ch.name if isinstance(
+                    ch, (ast.FunctionDef, ast.AsyncFunctionDef)) else fname)
+
+        mark(tree, '<module>')
+        for h, fname in owner.items():
+            t = h.type
+            if t is None:
+                names = ['<bare>']
+            else:
+                names = [ast.unparse(x) for x in (
+                    t.elts if isinstance(t, ast.Tuple) else [t])]
+            broad = [x for x in names if x in (
+                '<bare>', 'BaseException', 'KeyboardInterrupt',
+                'SystemExit')]
+            if not broad:
+                continue
+            reraises = any(isinstance(x, ast.Raise) for x in ast.walk(h))
+            if not reraises and (rel, fname) not in ok_sites:
+                bad.append(f'{rel}:{h.lineno} except {", ".join(broad)}')
+    bad = sorted(set(bad))
+    p.oblige('C04/no-handler-swallows-an-interrupt', not bad,
+             info={'handlers': bad, 'signature': 'a handler catches '
+                   'KeyboardInterrupt / SystemExit and goes on: ddSMT '
+                   'cannot be interrupted there'})
+
+
 def native_checks(tier):
     L = 6 if tier == 'thorough' else 5
     return [
@@ -590,6 +637,11 @@ def contracts(tier):
                                 'of __str__/__repr__ through str()/repr()/'
                                 'formatting; mutual recursion between '
                                 'different functions is not searched for'])]
+    cs.append(Contract('C04/no-swallowed-interrupt',
+                       ['ddsmt.nodeio.write_smtlib_to_file'],
+                       run_no_swallowed_interrupt,
+                       assumptions=['syntactic scan of every except clause '
+                                    'of ddsmt/*.py and bin/ddsmt']))
     cs += list(c08.scanner_contracts(tier)) + traversals.contracts(tier) + \
         writers.contracts(tier) + rebuild.contracts(tier) + \
         rebuild.reduplicate_contracts(tier)
